@@ -73,6 +73,8 @@ def parseOp (line : String) : Option Op :=
   | ["create", d, "hsFromVec", h, _cap, its] => do some (.create (← d.toNat?) (.hsFromVec (← parseItem h) (← parseItems its)))
   | ["create", d, "hwlFromVec", h, r, _cap, its] => do
       some (.create (← d.toNat?) (.hwlFromVec (← parseItem h) (← r.toNat?) (← parseItems its)))
+  -- `impl<T: Default> Default for Arc<T>` is `Arc::new(Default::default())`; the harness's `Tracked::default()` is (4000000, 0)
+  | ["create", d, "default"] => do some (.create (← d.toNat?) (.new ⟨4000000, 0⟩))
   | ["create", d, "newUninit"] => do some (.create (← d.toNat?) .newUninit)
   | ["create", d, "uniqueNewUninit"] => do some (.create (← d.toNat?) .uniqueNewUninit)
   | ["create", d, "newUninitSlice", n] => do some (.create (← d.toNat?) (.newUninitSlice (← n.toNat?)))
